@@ -177,10 +177,7 @@ fn bfs_buffer(ctx: &mut Ctx, queue: bool, cap: usize, vals: &[i32], state_cap: u
         ctx.states += 1;
         ctx.max_depth = ctx.max_depth.max(hist.len() as u64);
         for op in &all_ops {
-            let id = match ctx.take() {
-                Some(id) => id,
-                None => continue,
-            };
+            let (id, rec) = ctx.take_exec();
             ctx.transitions += 1;
             let descr = || format!("{} capacity={} history={:?} then {:?}", site, cap, hist, op);
             let got = guarded(|| {
@@ -199,7 +196,7 @@ fn bfs_buffer(ctx: &mut Ctx, queue: bool, cap: usize, vals: &[i32], state_cap: u
             match got {
                 Err(p) => {
                     let class = panic_class(&p);
-                    ctx.record(id, &class, Verdict::fail(&site, &class, p), descr);
+                    ctx.record_if(rec, id, &class, Verdict::fail(&site, &class, p), descr);
                 }
                 Ok((before, rr, rb, live_ref, live_pos, size, after)) => {
                     let okey = format!("{:?} -> {} {:?}", op, rb, live_pos);
@@ -217,7 +214,7 @@ fn bfs_buffer(ctx: &mut Ctx, queue: bool, cap: usize, vals: &[i32], state_cap: u
                     if is_mutating(op) && before != after {
                         ctx.nontrivial_mark(&okey);
                     }
-                    ctx.record(id, &okey, v, descr);
+                    ctx.record_if(rec, id, &okey, v, descr);
                     if is_mutating(op) && !seen.contains(&after) {
                         if seen.len() >= state_cap {
                             complete = false;
@@ -344,10 +341,7 @@ fn bfs_io(ctx: &mut Ctx, depth_max: usize) {
             let mut next = m.clone();
             if !apply_env(&mut next, a) {
                 if let Act::Ins(name) = a {
-                    let id = match ctx.take() {
-                        Some(id) => id,
-                        None => continue,
-                    };
+                    let (id, rec) = ctx.take_exec();
                     ctx.transitions += 1;
                     let before = with_instr(&m, name);
                     let out = step_once(&mut real, &before);
@@ -360,7 +354,7 @@ fn bfs_io(ctx: &mut Ctx, depth_max: usize) {
                     }
                     let names: Vec<String> = hist.iter().map(|i| format!("{:?}", acts[*i])).collect();
                     let mk = m.key();
-                    ctx.record(id, &okey, verdict, || format!("history=[{}] state={{{}}} then {}", names.join(", "), mk, name));
+                    ctx.record_if(rec, id, &okey, verdict, || format!("history=[{}] state={{{}}} then {}", names.join(", "), mk, name));
                     match out {
                         Outcome::Ok(after) => next = after,
                         Outcome::Panic(_) => continue,
@@ -408,16 +402,13 @@ fn fill(ctx: &mut Ctx) {
 
 fn run_script(ctx: &mut Ctx, real: &mut Real, mut m: M, script: &[&str], label: &str) {
     for (k, name) in script.iter().enumerate() {
-        let id = match ctx.take() {
-            Some(id) => id,
-            None => return,
-        };
+        let (id, rec) = ctx.take_exec();
         ctx.transitions += 1;
         ctx.states += 1;
         let out = step_once(real, &with_instr(&m, name));
         let verdict = refmodel::judge(name, &m, &out);
         let mk = m.key();
-        ctx.record(id, &out.key(), verdict, || format!("{} step {} state={{{}}} then {}", label, k, mk, name));
+        ctx.record_if(rec, id, &out.key(), verdict, || format!("{} step {} state={{{}}} then {}", label, k, mk, name));
         match out {
             Outcome::Ok(after) => m = after,
             Outcome::Panic(_) => return,
